@@ -82,24 +82,31 @@ CLAIMED = {
              "py_unescape (json.dumps(s, ensure_ascii=False)) = s and py_unescape (repr s) = s for every string; an empty or "
              "whitespace-only preamble is dropped. The tokenizer model is compared with CPython (ast) on every CLI output of the run.",
              "6 (C19)"),
-    "C02": C("tightb (Sem/Tight.v) is the decidable statement of the property (evidence per union member, element type, Optional, "
-             "Literal string, Any; the three documented widenings are the three places where evidence is weaker than inhabitation). "
-             "Props/C02.v holds its non-vacuity examples; generate_tight is being proved (Proofs/TightProps.v) and merged when "
-             "finished. Meanwhile the statement is evaluated on the model for every case of the run (Vtight), the model is tied by "
-             "X-infer, and the implementation's final registry is judged by the oracle: partial.", "6 (C02)"),
+    "C02": C("Theorems (Props/C02.v): tightb (Sem/Tight.v) is the decidable statement of the property (evidence per union member, "
+             "element type, Optional, Literal string, Any; the documented widenings are exactly the places where evidence is weaker "
+             "than inhabitation); generate_tight: for EVERY non-empty list of well-formed samples, registry, replacement table, dict decision and "
+             "fuel on which generate succeeds, the result is tight for those samples (both premises are shown necessary). The registry "
+             "stages after generate are not covered by the theorem: the statement is evaluated on the model for every case of the "
+             "run (Vtight), the model is tied by X-infer, and the implementation's final registry is judged by the oracle: partial.",
+             "6 (C02)"),
     "C06": C("The model is a function, so determinism reduces to the set-iteration sites: the translator enumerates every iteration "
              "site of the package and fails on one that is not in the reviewed table (237 sites, 40 over sets, each with the reason "
              "why the order cannot reach the output); order-independence lemmas are merged from Proofs/OrderIndep.v. CPython's set "
              "layout is over-approximated by 'any permutation'; hash-string caches are assumed transparent. X-seeds: fresh processes "
              "under 8 / 64 PYTHONHASHSEED values, bodies compared byte for byte: partial.", "6 (C06)"),
-    "C07": C("sem_eqb (Model/Canon.v) is equality up to field / member order; Props/C07.v holds a concrete permuted and duplicated "
-             "example; generate_perm_dup is being proved (Proofs/PermProps.v). The model statement is evaluated for every case of the "
-             "run (Vperm); the oracle compares canonical registries (colour refinement) over all permutations of <=4 samples and "
-             "duplications, after merge_models, under several merge policies: partial.", "6 (C07)"),
-    "C18": C("Model of _process_string_field_value / get_string_field_paths / post-init (Model/Converters.v) tied by X-conv on every "
-             "sample object of the run; Props/C18.v holds examples (None kept, lists mapped); run_path_correct to be merged. The "
-             "oracle constructs the generated attrs / dataclass classes from their samples and compares every field with an "
-             "independent conversion: partial.", "6 (C18)"),
+    "C07": C("Theorems (Props/C07.v): generate_perm_dup, unconditional: for sample lists equal as sets (any permutation, any "
+             "repetition) and every registry / replacement table / dict decision / fuel on which both runs succeed, the results of "
+             "generate are equal up to field and member order (sem_eqb, decided by canon). The registry stages (merge_models) are not "
+             "under the theorem: the model statement is evaluated for every case of the run (Vperm) and the oracle compares "
+             "canonical registries (colour refinement) over all permutations of <=4 samples and duplications, after merge_models, "
+             "under several merge policies: partial.", "6 (C07)"),
+    "C18": C("Theorems (Props/C18.v): on a value that inhabits its annotation the post-init converter (model of "
+             "_process_string_field_value / get_string_field_paths, Model/Converters.v) never raises and returns exactly the "
+             "specification convert_spec (parsed at pseudo-typed leaves, null kept, lists and mappings mapped); post_init keeps key "
+             "order, converts every field with a path, leaves the others untouched; the code before the D13 repair is refuted. Tied "
+             "by X-conv on every sample object of the run. The attrs / dataclasses constructors themselves are runtime: the oracle "
+             "constructs the generated classes from their samples and compares every field with an independent conversion: partial.",
+             "6 (C18)"),
 }
 ALL = ["C%02d" % i for i in range(1, 20)]
 NOT_YET = "check not built yet in this revision (work in progress; the property is in scope of the method — see DESIGN.md section 6)"
